@@ -24,7 +24,7 @@ Definition herr_eqb (a b : herr) : bool :=
   match a, b with
   | EMissingMethod, EMissingMethod | EUnsupportedMethod, EUnsupportedMethod | ENoSpaceFirstLine, ENoSpaceFirstLine
   | EBadVersion, EBadVersion | EEmptyURI, EEmptyURI | EInvalidURI, EInvalidURI | EBadStatus, EBadStatus
-  | EStartSpace, EStartSpace | EMissingColon, EMissingColon | EBadKeyLine, EBadKeyLine | EInvalidKey, EInvalidKey
+  | EStartSpace, EStartSpace | EBadBlockEnd, EBadBlockEnd | EMissingColon, EMissingColon | EBadKeyLine, EBadKeyLine | EInvalidKey, EInvalidKey
   | EInvalidValue, EInvalidValue | EDupCL, EDupCL | EBadCL, EBadCL | EUnsupportedTE, EUnsupportedTE
   | ETooManyTE, ETooManyTE | ETooManyHost, ETooManyHost | EBadTrailer, EBadTrailer | EHostRequired, EHostRequired => true
   | _, _ => false
